@@ -105,6 +105,11 @@ def g2_no_lhs_labels(ctx) -> None:
         inner = D.resolve(D.definitions(f), val)
         # resolve nested single-use names
         txt = val
+    if val is not None:
+        val = D.expanded(f, val)
+    forms = forms + ("{_M_l for _M_l in itertools.chain.from_iterable(self.rules_dict.values()) if _M_l not in self.rules_dict}",
+                     "set((_M_l for _M_l in itertools.chain.from_iterable(self.rules_dict.values()) if _M_l not in self.rules_dict))",
+                     "{_M_l for _M_l in itertools.chain.from_iterable(self.rules_dict.values()) if not _M_l in self.rules_dict}")
     if val is not None and any(PT.match(PT.compile_pattern(p), val) is not None for p in forms):
         ctx.ok("G2", "labels without a left-hand side = all right-hand labels that are not keys of rules_dict (nothing filtered besides)")
     else:
@@ -200,7 +205,7 @@ def g4_rules_from_labels(ctx) -> None:
     rev = PT.find_all(g, f"_M_s = self.ruledb.eqv_rule_to_strategy[{ch}[0], ({pa},)]")
     if rev:
         s = rev[0][1]["_M_s"]
-        app = PT.find_all(g, f"_M_r = {s}(self.classdb.get_class({ch}[0]))")
+        app = [c for c in walk_local(g) if isinstance(c, ast.Call) and norm(c) == f"{s}(self.classdb.get_class({ch}[0]))"]
         rr = [r for r in C.returns_of(g) if r.value is not None and isinstance(r.value, ast.Call) and isinstance(r.value.func, ast.Attribute) and r.value.func.attr == "to_reverse_rule"]
         if app and rr and all(len(r.value.args) == 1 and norm(r.value.args[0]) == "0" for r in rr):
             ctx.ok("G4", "a rule stored in the other direction is re-applied to the class of the child and reversed at its only child")
@@ -209,10 +214,17 @@ def g4_rules_from_labels(ctx) -> None:
     else:
         ctx.violation("G4", g, f"_find_rule must also look for the rule in the other direction: eqv_rule_to_strategy[({ch}[0], ({pa},))]", construct=f"{EX}._find_rule reverse")
     # two-way forms are narrowed to the single non-empty child
-    eq = [r for r in C.returns_of(g) if r.value is not None and "to_equivalence_rule" in norm(r.value)] + \
-         [n for n in walk_local(g) if isinstance(n, ast.Assign) and "to_equivalence_rule" in norm(n.value)]
-    good = [x for x in eq if PT.match(PT.compile_pattern("_M_r if len(_M_r.children) == 1 else _M_r.to_equivalence_rule()"), x.value) is not None]
-    if len(good) >= 2:
+    narrow = "_M_r if len(_M_r.children) == 1 else _M_r.to_equivalence_rule()"
+    direct = [x for x in walk_local(g) if isinstance(x, ast.IfExp) and PT.match(PT.compile_pattern(narrow), x) is not None]
+    via = []
+    for c in walk_local(g):
+        if isinstance(c, ast.Call) and isinstance(c.func, ast.Attribute) and isinstance(c.func.value, ast.Name) and c.func.value.id in ("self", EX, "cls") and len(c.args) == 1:
+            hm = P.find_method(P.need_class(EX), c.func.attr)
+            if hm is not None and hm.node is not g:
+                hr = [r for r in C.returns_of(hm.node) if r.value is not None]
+                if len(hr) == 1 and PT.match(PT.compile_pattern(narrow), hr[0].value) is not None:
+                    via.append(c)
+    if len(direct) + len(via) >= 2:
         ctx.ok("G4", "a two-way rule with empty children is narrowed to its equivalence form")
     else:
         ctx.violation("G4", g, "a rule from the equivalence store must be returned as `rule if len(rule.children) == 1 else rule.to_equivalence_rule()`, in both directions",
